@@ -335,6 +335,12 @@ type fileInfo struct {
 type layout struct {
 	mem   map[int][]row // per series, time ascending
 	files []fileInfo
+	empty []emptyCol // columns that a chunk keeps although they hold no value in it
+}
+
+type emptyCol struct {
+	ch  chunkInfo
+	col string
 }
 
 func relSec(ns int64) (int, bool) {
@@ -500,6 +506,9 @@ func (h *history) emitLayout() (*layout, bool) {
 					}
 				}
 				stats = append(stats, statOp{fmt.Sprintf("stat %d %d %s", fi, s, st.Name), a, checkStored(st.Name, a, ci.segs)})
+				if st.Count == 0 && colIdx(st.Name) >= 0 {
+					lay.empty = append(lay.empty, emptyCol{ci, st.Name})
+				}
 			}
 		}
 		lay.files = append(lay.files, info)
@@ -1498,12 +1507,19 @@ func (h *history) genQuery(bs []int) aggQuery {
 		}
 	}
 	q.asc = !r.Chance(30)
-	if !mix && r.Chance(5) {
-		// a lone selector with auxiliary columns (checked against the rows only)
+	if !mix && r.Chance(10) {
+		// a lone selector with auxiliary columns (checked against the rows only); mostly through
+		// the statistics path, half of them descending, often over the whole range (the stored
+		// record of a chunk is then used and the row of the extreme value looked up by its time)
 		f := []string{"min", "max", "first", "last"}[r.Intn(4)]
 		col := []string{"fi", "ff"}[r.Intn(2)]
 		q.calls = []call{{f, col}}
 		q.interval = 0
+		q.hint = r.Chance(25)
+		q.asc = r.Bool()
+		if r.Chance(40) {
+			q.lo, q.hi = -5, h.nTimes+5
+		}
 		for _, a := range cols {
 			if a != col && r.Chance(50) {
 				q.aux = append(q.aux, a)
@@ -1574,6 +1590,20 @@ func (h *history) checkpoint(nq int) {
 			cs := fnCols[f]
 			q = aggQuery{calls: []call{{f, cs[h.r.Intn(len(cs))]}}, lo: ch.min - h.r.Intn(2), hi: ch.max + h.r.Intn(2), grp: []string{"host", "-", "zone"}[h.r.Intn(3)], asc: !h.r.Chance(30), fill: "none"}
 			c.Count("query:statistics-probe")
+			if len(lay.empty) > 0 && i == 0 {
+				// a column without a value in a chunk that lies inside the range: its stored record is
+				// in the initial state and must not contribute
+				e := lay.empty[h.r.Intn(len(lay.empty))]
+				fs := []string{"count", "min", "max", "first", "last"}
+				if e.col == "fi" || e.col == "ff" {
+					fs = append(fs, "sum", "mean")
+				} else if e.col == "fs" {
+					fs = []string{"count", "first", "last"}
+				}
+				q.calls = []call{{fs[h.r.Intn(len(fs))], e.col}}
+				q.lo, q.hi = e.ch.min-h.r.Intn(2), e.ch.max+h.r.Intn(2)
+				c.Count("query:empty-column-probe")
+			}
 		}
 		raw := full
 		// the corresponding plain select itself (always when there is a field filter)
@@ -1885,7 +1915,11 @@ func runReplay(c *hx.Ctx, path string) error {
 // known_findings.jsonl (no class is listed there for the unchanged tree).
 func classify(q aggQuery) string {
 	if len(q.aux) > 0 {
-		return "selector-with-aux-columns"
+		// the statistics path is clean; the row path (hint, field filter) has a known defect
+		if q.eligible() {
+			return "selector-with-aux-columns:statistics"
+		}
+		return "selector-with-aux-columns:row-path"
 	}
 	path := "rows"
 	switch {
